@@ -394,7 +394,7 @@ func (x *Exec) enter() (ordinal int) {
 	if inj.OneRun && inj.Run != x.runIdx {
 		return
 	}
-	if (inj.Kind == "cancel" || inj.Kind == "deadline" || inj.Kind == "cancel-cause") && inj.At == ordinal && x.cancel != nil {
+	if (inj.Kind == "cancel" || inj.Kind == "deadline" || inj.Kind == "cancel-cause" || inj.Kind == "cancel-far") && inj.At == ordinal && x.cancel != nil {
 		x.cancel()
 		x.cancelSeq = ordinal
 	}
@@ -1193,6 +1193,16 @@ func (x *Exec) RunOnce() (out Outcome) {
 	case "far-deadline": // a real deadline At milliseconds away that is NOT supposed to be reached; the run is discarded if it was
 		c, cf := context.WithTimeout(context.Background(), time.Duration(x.Sc.Inject.At)*time.Millisecond)
 		ctx, stop = c, cf
+	case "cancel-far", "pre-cancel-far": // an explicitly cancelled context that ALSO carries a deadline two hours away
+		parent, pcf := context.WithTimeout(context.Background(), 2*time.Hour)
+		c, cf := context.WithCancel(parent)
+		if x.Sc.Inject.At%2 == 1 { // the other way round: the deadline context itself is cancelled early
+			c, cf = parent, pcf
+		}
+		ctx, x.cancel, stop = c, cf, func() { cf(); pcf() }
+		if x.Sc.Inject.Kind == "pre-cancel-far" {
+			cf()
+		}
 	case "cancel-cause":
 		c, cf := context.WithCancelCause(context.Background())
 		ctx, x.cancel = c, func() { cf(errors.New("custom cancellation cause")) }
